@@ -3,6 +3,12 @@
 package blob
 
 import (
+	"crypto/sha256"
+	"encoding/hex"
+	"errors"
+	"io/fs"
+	"os"
+	"path/filepath"
 	"time"
 
 	"github.com/ollama/ollama/server/internal/internal/names"
@@ -46,3 +52,83 @@ func VerifC13Links(dir string) ([]string, error) {
 func VerifC13GetFile(dir string, d Digest) string { return verifC13Cache(dir).GetFile(d) }
 
 func VerifC13SplitNameDigest(s string) (string, string) { return splitNameDigest(s) }
+
+// ---- histories on ONE long-lived DiskCache whose directory is also written directly (C13 cachehist)
+
+type VerifC13HOp struct {
+	Op, Name, Path string
+	Data           []byte
+}
+
+type VerifC13HObs struct {
+	Code   int
+	Err    string
+	Digest string
+	Ok     bool
+	Links  []string
+	Sums   []string
+}
+
+func verifC13Code(err error) (int, string) {
+	switch {
+	case err == nil:
+		return 0, ""
+	case errors.Is(err, errInvalidName):
+		return 3, ""
+	case errors.Is(err, fs.ErrNotExist):
+		return 1, ""
+	}
+	return 8, err.Error()
+}
+
+// VerifC13History opens a real cache with Open(dir) and runs the operations on that one instance; after every
+// operation the directory is listed by a fresh, stateless observer (links() of a new DiskCache value).
+func VerifC13History(dir string, ops []VerifC13HOp) ([]VerifC13HObs, error) {
+	c, err := Open(dir)
+	if err != nil {
+		return nil, err
+	}
+	var out []VerifC13HObs
+	for _, op := range ops {
+		var o VerifC13HObs
+		switch op.Op {
+		case "link":
+			d := DigestFromBytes(op.Data)
+			if err := PutBytes(c, d, op.Data); err != nil {
+				return nil, err
+			}
+			o.Code, o.Err = verifC13Code(c.Link(op.Name, d))
+		case "resolve":
+			d, err := c.Resolve(op.Name)
+			o.Code, o.Err = verifC13Code(err)
+			if err == nil {
+				o.Digest = hex.EncodeToString(d.sum[:])
+			}
+		case "unlink":
+			ok, err := c.Unlink(op.Name)
+			o.Code, o.Err = verifC13Code(err)
+			o.Ok = ok
+		case "plant":
+			p := filepath.Join(dir, op.Path)
+			if err := os.MkdirAll(filepath.Dir(p), 0o777); err != nil {
+				return nil, err
+			}
+			if err := os.WriteFile(p, op.Data, 0o666); err != nil {
+				return nil, err
+			}
+		case "remove":
+			os.Remove(filepath.Join(dir, op.Path))
+		}
+		for l, err := range verifC13Cache(dir).links() {
+			if err != nil {
+				return nil, err
+			}
+			data, _ := os.ReadFile(filepath.Join(dir, l))
+			sum := sha256.Sum256(data)
+			o.Links = append(o.Links, l)
+			o.Sums = append(o.Sums, hex.EncodeToString(sum[:]))
+		}
+		out = append(out, o)
+	}
+	return out, nil
+}
